@@ -255,7 +255,7 @@ def run(ctx):
         lays = layouts_for(quick, ctx.rng)
         by_name = {(fn, mn): (mode, obs) for fn, mn, mode, obs in MODES}
         lay_modes = LAYOUT_MODES_QUICK if quick else [(fn, mn) for fn, mn, _, _ in MODES]
-        n_plain = len(base)
+        corpus_names_all = {layout_name(lay) for lay in layout_corpus()}
         for lay in lays:
             prim_names = lay["names"]
             for fn, mn in lay_modes:
@@ -273,7 +273,7 @@ def run(ctx):
             cases.append(c)
             if c.get("layout"):
                 n = r["ncalls"]
-                if quick:
+                if quick or c["layout_name"] not in corpus_names_all:
                     ks = sorted({0, n - 1, ctx.rng.randrange(n), ctx.rng.randrange(n)}) if n else []
                     for j, k in enumerate(ks):
                         kind, after = KINDS_AFTER[(bi + j) % len(KINDS_AFTER)]
@@ -527,7 +527,8 @@ def run(ctx):
                 + (f"{len(LAYOUT_MODES_QUICK)} modes" if quick else "every mode")
                 + ": the fault-free run, the k-th tracked call raising AFTER its effect ("
                 + ("first, last and two random k, kinds rotating KeyboardInterrupt / Exception / SIGINT" if quick
-                   else "all k, KeyboardInterrupt")
+                   else "all k with KeyboardInterrupt for the corpus layouts, first / last / two random k with rotating kinds "
+                        "for the enumerated ones")
                 + ") and asynchronous KeyboardInterrupts at a spread of signal points (4 layouts x 3 modes); the "
                 "attributes of EVERY pty (bystanders included) are compared at the three times, in Coq "
                 "(C13MultiTie.mcheck); non-trivial: distinct passing runs in a layout with at least two terminals.",
